@@ -92,18 +92,16 @@ def _split(spec, n):
     return max(0, min(n, int(spec.get("split", 1))))
 
 
-def reorder(lst, spec):
-    """New list of the same class holding the rows of `lst`, reordered by the recipe, built through
-    the public constructors / append / sorted."""
-    cls = type(lst)
-    n = len(lst)
-    items = [lst[i] for i in range(n)]
+def construct(cls, items, spec, offsets):
+    """A list of class `cls` from item objects, in the order / by the route the recipe says
+    (public constructors, append, sorted only)."""
+    n = len(items)
     if spec is None or n == 0:
-        return cls(items)
+        return cls(list(items))
     how = spec.get("how", "ctor")
     if how == "rsort":
-        return cls(items).sorted(reverse=True)
-    p = perm_of(spec, n, [float(x) for x in lst.offset.tolist()])
+        return cls(list(items)).sorted(reverse=True)
+    p = perm_of(spec, n, offsets)
     ordered = [items[i] for i in p]
     if how == "ctor":
         return cls(ordered)
@@ -133,16 +131,6 @@ def _spec(perm, name):
     return perm.get(name if name in NAMED else "other")
 
 
-def rebuild(obj, perm):
-    """Replace every list of the chart (in place, on a freshly built object) by its reordered copy."""
-    with warnings.catch_warnings():
-        warnings.simplefilter("ignore")
-        for m in _maps(obj):
-            for name, lst in _named_lists(m).items():
-                setattr(m, name, reorder(lst, _spec(perm, name) if perm else None))
-    return obj
-
-
 def _seq(lst):
     return [canon(_nan_safe(r)) for r in B.rows(lst)]
 
@@ -158,24 +146,36 @@ def _nan_safe(v):
 
 
 def pair(ctx, make, perm, tag=""):
-    """(A, B): two fresh objects, B reordered.  Records labels and the non-trivial flag."""
-    a = rebuild(make(), None)
-    b = rebuild(make(), perm)
+    """(A, B, moved): two fresh charts whose lists are built from the same item objects, A in the
+    generated order, B by the recipes.  Records labels; moved = some list's row sequence differs."""
+    a, b = make(), make()
     moved = False
-    for ma, mb in zip(_maps(a), _maps(b)):
-        la, lb = _named_lists(ma), _named_lists(mb)
-        for name in la:
-            sa, sb = _seq(la[name]), _seq(lb[name])
-            ctx.harness(sorted(sa) == sorted(sb), f"reordering changed the rows of {name}")
-            if sa != sb:
-                moved = True
+    with warnings.catch_warnings():
+        warnings.simplefilter("ignore")
+        for ma, mb in zip(_maps(a), _maps(b)):
+            for name, lst in _named_lists(ma).items():
                 sp = _spec(perm, name)
-                ctx.label(f"{tag}how={sp.get('how', 'ctor')}")
-                ctx.label(f"{tag}kind={'(rsort)' if sp.get('how') == 'rsort' else sp.get('kind')}")
-                ctx.label(f"{tag}moved={name if name in NAMED else 'other'}")
-                offs = [float(x) for x in la[name].offset.tolist()]
-                ctx.label(f"{tag}A-unsorted", offs != sorted(offs))
-                ctx.label(f"{tag}ties-in-reordered-list", len(set(offs)) < len(offs))
+                n = len(lst)
+                items = [lst[i] for i in range(n)]
+                offs = [float(x) for x in lst.offset.tolist()]
+                la = construct(type(lst), items, None, offs)
+                setattr(ma, name, la)
+                if sp is None or n == 0:
+                    setattr(mb, name, construct(type(lst), items, None, offs))
+                    continue
+                lb = construct(type(lst), items, sp, offs)
+                setattr(mb, name, lb)
+                if n < 2:
+                    continue
+                sa, sb = _seq(la), _seq(lb)
+                ctx.harness(sorted(sa) == sorted(sb), f"reordering changed the rows of {name}")
+                if sa != sb:
+                    moved = True
+                    ctx.label(f"{tag}how={sp.get('how', 'ctor')}")
+                    ctx.label(f"{tag}kind={'(rsort)' if sp.get('how') == 'rsort' else sp.get('kind')}")
+                    ctx.label(f"{tag}moved={name if name in NAMED else 'other'}")
+                    ctx.label(f"{tag}A-unsorted", offs != sorted(offs))
+                    ctx.label(f"{tag}ties-in-reordered-list", len(set(offs)) < len(offs))
     return a, b, moved
 
 
@@ -753,12 +753,15 @@ def check_write_sm(case, ctx):
         pa = R.parse(ta)
     except Exception as e:  # noqa: BLE001
         ctx.exclude(f"baseline-unparseable:sm:{type(e).__name__}")
-    if pa["problems"]:
-        ctx.exclude("baseline-unparseable:sm:" + str(pa["problems"][0][0]))
+    # the writer pads empty measures with 4-wide rows whatever the key count (not a matter of row order):
+    # tolerated in the baseline, every other syntactic problem puts the case outside the domain
+    codes_a = sorted({p[0] for p in pa["problems"]})
+    if set(codes_a) - {"row-width-mixed"}:
+        ctx.exclude("baseline-unparseable:sm:" + codes_a[0])
+    ctx.label("baseline-has-4-wide-padding-rows", bool(codes_a))
     pb = ctx.call("reference-parse", R.parse, tb)
     da, db = _sm_denotation(pa), _sm_denotation(pb)
-    if pb["problems"]:
-        ctx.fail("sm-file-problems", f"the reordered chart's file is malformed: {pb['problems'][:3]}")
+    cmp_value(ctx, "sm-file-problems", ".sm syntactic problems", codes_a, sorted({p[0] for p in pb["problems"]}))
     for k in ("meta", "offset_ms", "bpms", "stops"):
         cmp_value(ctx, f"sm-file-{k}", f".sm {k}", da[k], db[k])
     if len(da["charts"]) != len(db["charts"]):
@@ -805,16 +808,28 @@ def check_write_bms(case, ctx):
 
 
 # --------------------------------------------------------------------------- #
+def _append_item_route(case, failure) -> bool:
+    """The case grows some list with append(item) (proposed_fixes/C15_append_item_object_dtype.md:
+    such a list is all-object, full_ln raises on it and hitsound_copy drops its default sounds)."""
+    for key in ("perm", "perm_src", "perm_tgt"):
+        for sp in (case.get(key) or {}).values():
+            if isinstance(sp, dict) and sp.get("how") == "append":
+                return True
+    return False
+
+
+KNOWN_PREDICATES = {"append_item_route": _append_item_route}
+
 SUBS = [
-    Sub("rate", check_rate, strategy=rate_case_st, examples={"quick": 120, "thorough": 1200}, shards={"quick": 1, "thorough": 16}),
-    Sub("convert", check_convert, strategy=convert_case_st, examples={"quick": 120, "thorough": 1200}, shards={"quick": 2, "thorough": 16}),
-    Sub("full_ln", check_full_ln, strategy=full_ln_case_st, examples={"quick": 200, "thorough": 2000}, shards={"quick": 1, "thorough": 16}),
-    Sub("analysis", check_analysis, strategy=analysis_case_st, examples={"quick": 150, "thorough": 1500}, shards={"quick": 3, "thorough": 16}),
-    Sub("hitsound", check_hitsound, strategy=hitsound_case_st, examples={"quick": 150, "thorough": 1500}, shards={"quick": 2, "thorough": 16}),
-    Sub("write_osu", check_write_osu, strategy=write_osu_case_st, examples={"quick": 120, "thorough": 1000}, shards={"quick": 1, "thorough": 16}),
-    Sub("write_qua", check_write_qua, strategy=write_qua_case_st, examples={"quick": 120, "thorough": 1000}, shards={"quick": 1, "thorough": 16}),
-    Sub("write_sm", check_write_sm, strategy=write_sm_case_st, examples={"quick": 60, "thorough": 500}, shards={"quick": 3, "thorough": 16}),
-    Sub("write_bms", check_write_bms, strategy=write_bms_case_st, examples={"quick": 60, "thorough": 500}, shards={"quick": 2, "thorough": 16}),
+    Sub("rate", check_rate, strategy=rate_case_st, examples={"quick": 240, "thorough": 150}, shards={"quick": 1, "thorough": 16}),
+    Sub("convert", check_convert, strategy=convert_case_st, examples={"quick": 200, "thorough": 150}, shards={"quick": 2, "thorough": 16}),
+    Sub("full_ln", check_full_ln, strategy=full_ln_case_st, examples={"quick": 400, "thorough": 250}, shards={"quick": 1, "thorough": 16}),
+    Sub("analysis", check_analysis, strategy=analysis_case_st, examples={"quick": 230, "thorough": 200}, shards={"quick": 3, "thorough": 16}),
+    Sub("hitsound", check_hitsound, strategy=hitsound_case_st, examples={"quick": 200, "thorough": 150}, shards={"quick": 2, "thorough": 16}),
+    Sub("write_osu", check_write_osu, strategy=write_osu_case_st, examples={"quick": 280, "thorough": 150}, shards={"quick": 1, "thorough": 16}),
+    Sub("write_qua", check_write_qua, strategy=write_qua_case_st, examples={"quick": 320, "thorough": 150}, shards={"quick": 1, "thorough": 16}),
+    Sub("write_sm", check_write_sm, strategy=write_sm_case_st, examples={"quick": 220, "thorough": 100}, shards={"quick": 3, "thorough": 16}),
+    Sub("write_bms", check_write_bms, strategy=write_bms_case_st, examples={"quick": 340, "thorough": 120}, shards={"quick": 2, "thorough": 16}),
 ]
 
 MANIFEST = dict(
